@@ -71,6 +71,16 @@ class GhostCursor(object):
 
     def executemany(self, query, seq):
         from .core import SSeq
+        if isinstance(seq, SSeq) and seq.kind == "map-tuple":
+            # one row per element of an abstract sequence: the statement executed for the generic index
+            src, i0, row = seq.src
+            ctx = Ctx.current
+            ctx.effect("forall-begin", src, i0)
+            q = self._log("execute", query, list(row))
+            if self.conn.on_execute is not None:
+                self.conn.on_execute(self, q, list(row))
+            ctx.effect("forall-end", src, i0)
+            return self
         if not isinstance(seq, (list, tuple, SSeq)):
             seq = list(seq)            # consume the (interpreted) generator now, as sqlite3 does
         q = self._log("executemany", query, seq)
@@ -83,6 +93,31 @@ class GhostCursor(object):
         if self.conn.on_execute is not None:
             self.conn.on_execute(self, q, [])
         return self
+
+    # the rest of the DB-API cursor surface that has no effect on the database
+    def close(self):
+        pass
+
+    def __enter__(self):
+        return self
+
+    def __exit__(self, *a):
+        return False
+
+    @property
+    def rowcount(self):
+        return -1
+
+    @property
+    def lastrowid(self):
+        return None
+
+    @property
+    def description(self):
+        return None
+
+    def fetchmany(self, size=1):
+        return list(self.conn.result_rows(self))[:size]
 
     def fetchone(self):
         rows = self.conn.result_rows(self)
